@@ -730,6 +730,8 @@ def run(tier):
         o3(prog, rep)
         o4_o5(prog, rep)
         o7_slotrange(prog, rep)
+        from . import c14 as _c14
+        _c14.destroy_then_fail_rule(prog, rep, only_files=("events/events_network.c", "events/events_timer.c", "events/events_immediate.c"))   # a refused registration leaves the existing one alone
         if o8_capacity(prog, rep) < 5:
             rep.defer_broken("O8-capacity: fewer than 5 obligations found in the function that adds a poll entry")
         o6(prog, rep)
